@@ -32,6 +32,14 @@ CLAIMED = {
          "output naming) are implementation-side sweeps (testing). Known finding F6 (WOFF/WOFF2 leak zlib/brotli/assert errors) is listed; "
          "F5 (TTC header) was repaired by a fix: commit.",
          "Rocq proof of reader totality/outcome classes over a hand-written model + correspondence + fault-injection sweeps"),
+ "C19": ("Theorems over the Gallina transcription of userNameToFileName/handleClash1 (both copies; their illegal/reserved tables are "
+         "REGENERATED from the Python source on every run): the result never clashes case-insensitively with an existing name, any sequence of "
+         "names yields pairwise distinct files ignoring case, no illegal character survives in the generated part, the clash fallback respects "
+         "the 255 limit, the regenerated tables contain every character/name the target file systems forbid (tables_cover_spec, re-proved against "
+         "the current source), and the unconditional 255 bound is REFUTED by a machine-checked witness (known finding F1). Correspondence on "
+         "adversarial name sequences; designspace/plist/GLIF/UFO write-read equality and axis-map inverses are implementation sweeps (testing). "
+         "F2 (misc/filenames raw-string table) repaired by a fix: commit.",
+         "Rocq proof over a model with source-regenerated tables + correspondence + write/read sweeps"),
 }
 
 def main():
